@@ -72,10 +72,16 @@ pub enum Op {
     Reset,
     ResetToStart,
     /// `alloc_try_with(_mut)`; `inner` = the closure of the shared form allocates (size, align) first
-    TryWith { mutable: bool, ok: bool, inner: Option<(u32, u32)> },
+    TryWith { mutable: bool, ok: bool, inner: Option<(u32, u32)>, try_: bool },
     Orig(OrigOp),
     /// observe only (all oracles still run)
     Nop,
+    /// requests that cannot be satisfied: `allocate(isize::MAX rounded down to align)`; must be reported as an error
+    AllocHuge { align: u32 },
+    /// `grow(sel, isize::MAX-ish)`
+    GrowHuge { sel: Sel },
+    /// `try_reserve(usize::MAX)` / `try_reserve(isize::MAX)`
+    ReserveHuge { max: bool },
 }
 
 impl fmt::Display for Sel {
@@ -155,6 +161,7 @@ fn region_str(r: Region) -> String {
         Region::GuardReset => "guard_reset".into(),
         Region::Checkpoint => "checkpoint".into(),
         Region::Claim => "claim".into(),
+        Region::ByValue => "by_value".into(),
     }
 }
 fn region_parse(s: &str) -> Option<Region> {
@@ -164,6 +171,7 @@ fn region_parse(s: &str) -> Option<Region> {
         "guard_reset" => Region::GuardReset,
         "checkpoint" => Region::Checkpoint,
         "claim" => Region::Claim,
+        "by_value" => Region::ByValue,
         _ => {
             if let Some(n) = s.strip_prefix("scoped_aligned") {
                 Region::ScopedAligned(n.parse().ok()?)
@@ -192,6 +200,7 @@ fn typed_str(t: TypedOp) -> String {
         TypedOp::AllocUninitU64 => "alloc_uninit_u64".into(),
         TypedOp::AllocUninitSliceU8(n) => format!("alloc_uninit_slice_u8.{n}"),
         TypedOp::SliceOverflow => "slice_overflow".into(),
+        TypedOp::AllocUnit => "alloc_unit".into(),
     }
 }
 fn typed_parse(s: &str) -> Option<TypedOp> {
@@ -217,6 +226,7 @@ fn typed_parse(s: &str) -> Option<TypedOp> {
         "alloc_uninit_u64" => TypedOp::AllocUninitU64,
         "alloc_uninit_slice_u8" => TypedOp::AllocUninitSliceU8(num()?),
         "slice_overflow" => TypedOp::SliceOverflow,
+        "alloc_unit" => TypedOp::AllocUnit,
         _ => return None,
     })
 }
@@ -285,8 +295,8 @@ impl fmt::Display for Op {
             Op::ExitUnwind => write!(f, "unwind"),
             Op::Reset => write!(f, "reset"),
             Op::ResetToStart => write!(f, "reset_to_start"),
-            Op::TryWith { mutable, ok, inner } => {
-                write!(f, "{}:{}", if mutable { "trywithmut" } else { "trywith" }, if ok { "ok" } else { "err" })?;
+            Op::TryWith { mutable, ok, inner, try_ } => {
+                write!(f, "{}{}:{}", if try_ { "try" } else { "" }, if mutable { "trywithmut" } else { "trywith" }, if ok { "ok" } else { "err" })?;
                 if let Some((s, a)) = inner {
                     write!(f, ":{s}:{a}")?;
                 }
@@ -294,6 +304,9 @@ impl fmt::Display for Op {
             }
             Op::Orig(o) => write!(f, "orig:{}", orig_str(o)),
             Op::Nop => write!(f, "nop"),
+            Op::AllocHuge { align } => write!(f, "allochuge:{align}"),
+            Op::GrowHuge { sel } => write!(f, "growhuge:{sel}"),
+            Op::ReserveHuge { max } => write!(f, "reservehuge:{}", if max { "usize" } else { "isize" }),
         }
     }
 }
@@ -328,13 +341,17 @@ impl Op {
             "unwind" => Op::ExitUnwind,
             "reset" => Op::Reset,
             "reset_to_start" => Op::ResetToStart,
-            "trywith" | "trywithmut" => Op::TryWith {
-                mutable: name == "trywithmut",
+            "trywith" | "trywithmut" | "trytrywith" | "trytrywithmut" => Op::TryWith {
+                try_: name.starts_with("trytry"),
+                mutable: name.ends_with("mut"),
                 ok: *parts.get(1)? == "ok",
                 inner: if parts.len() >= 4 { Some((n(2)?, n(3)?)) } else { None },
             },
             "orig" => Op::Orig(orig_parse(parts.get(1)?)?),
             "nop" => Op::Nop,
+            "allochuge" => Op::AllocHuge { align: n(1)? },
+            "growhuge" => Op::GrowHuge { sel: Sel::parse(parts.get(1)?)? },
+            "reservehuge" => Op::ReserveHuge { max: *parts.get(1)? == "usize" },
             _ => return None,
         })
     }
